@@ -8,7 +8,7 @@
 From Coq Require Import ZArith List Bool.
 From EV Require Import Base.Arith Gen.Brent Model.MpsMachine
   Proofs.MpsStep Proofs.MpsPhase Proofs.MpsSweep Proofs.MpsTdvpComplete Proofs.MpsTdvpStep
-  Proofs.MpsTdvpRun Proofs.MpsTdvpTrace Proofs.MpsTdvpN2 Proofs.MpsRunLoop Proofs.MpsRunLoopCor.
+  Proofs.MpsTdvpRun Proofs.MpsTdvpTrace Proofs.MpsTdvpN2 Proofs.MpsRunLoop Proofs.MpsRunLoopCor Proofs.MpsTimeSymmetry.
 Import ListNotations.
 Open Scope Z_scope.
 
@@ -119,3 +119,24 @@ Theorem C02_run_loop_is_iteration :
   forall (A : Type) (ar : Arith A) (n : nat) (s sf : mstate A),
   run ar n s = Ok sf -> is_finished sf = true /\ iter_progress ar n s = Ok sf.
 Proof. intros A ar n s sf H. split; [eapply run_result_finished; exact H | apply run_is_iter; exact H]. Qed.
+
+(* What the palindrome buys: over ANY monoid of propagators in which every local kernel satisfies
+   K(p,i,-t) * K(p,i,t) = 1 (as exact exponentials do; for the real projected/truncated kernels this is an
+   idealisation and stays a premise), the TDVP step taken backwards in time undoes the step taken forwards:
+   Phi(tgt -> cur) o Phi(cur -> tgt) = id, for every N = n+3 >= 3.  A one-step method with this property is
+   self-adjoint, hence of even order in dt. *)
+From Coq Require Import Reals.
+Theorem C02_step_time_symmetric :
+  forall (M : Type) (mul : M -> M -> M) (one : M),
+  (forall a b c, mul a (mul b c) = mul (mul a b) c) -> (forall a, mul one a = a) -> (forall a, mul a one = a) ->
+  forall (K : bool -> Z -> R -> M), (forall p i t, mul (K p i (- t)%R) (K p i t) = one) ->
+  forall (n : nat) (k k' : Z) (cur tgt : R) (sm sm' : bool) (next next' : option R),
+  mul (compose M mul one K (flat_map (@kernel_of R) (step_events R R_arith n k' tgt cur sm' next')))
+      (compose M mul one K (flat_map (@kernel_of R) (step_events R R_arith n k cur tgt sm next))) = one.
+Proof. exact tdvp_step_time_symmetric. Qed.
+
+(* the premises are satisfiable by a non-trivial instance: the additive group of R with K(p,i,t) = t *)
+Example C02_time_symmetry_premises_satisfiable :
+  (forall a b c : R, (a + (b + c) = (a + b) + c)%R) /\ (forall a : R, (0 + a = a)%R) /\ (forall a : R, (a + 0 = a)%R) /\
+  (forall (p : bool) (i : Z) (t : R), ((fun _ _ x => x) p i (- t) + (fun _ _ x => x) p i t = 0)%R).
+Proof. repeat split; intros; cbv beta; ring. Qed.
